@@ -25,7 +25,7 @@ pub trait Sut: Clone + Send + Sync + 'static {
     /// all entries through the plain shared iterator
     fn entries(&self) -> Vec<Obs>;
     fn apply(&mut self, model: &mut Model, w: &Walk, op: Op, tok: u32, cx: &Cx) -> Vec<Viol>;
-    fn enumerate_ops(uni: &Universe, model: &Model, alpha: Alphabet, two_reps: bool, retain_all: bool) -> Vec<Op>;
+    fn enumerate_ops(uni: &Universe, model: &Model, alpha: Alphabet, rep_mode: u8, retain_all: bool) -> Vec<Op>;
 }
 
 impl<P: PType> Sut for PrefixMap<P, u32> {
@@ -53,8 +53,8 @@ impl<P: PType> Sut for PrefixMap<P, u32> {
     fn apply(&mut self, model: &mut Model, w: &Walk, op: Op, tok: u32, cx: &Cx) -> Vec<Viol> {
         ops::apply(self, model, w, op, tok, cx)
     }
-    fn enumerate_ops(uni: &Universe, model: &Model, alpha: Alphabet, two_reps: bool, retain_all: bool) -> Vec<Op> {
-        ops::enumerate_ops(uni, model, alpha, two_reps, retain_all)
+    fn enumerate_ops(uni: &Universe, model: &Model, alpha: Alphabet, rep_mode: u8, retain_all: bool) -> Vec<Op> {
+        ops::enumerate_ops(uni, model, alpha, rep_mode, retain_all)
     }
 }
 
@@ -194,16 +194,31 @@ impl<P: PType> Sut for PrefixSet<P> {
                 }
                 *self = items.into_iter().collect();
             }
+            K::FromIterDup => {
+                let old = std::mem::take(self);
+                let n = PrefixSet::len(&old);
+                let first: Vec<P> = old.into_iter().take(cap(n)).collect();
+                let mut seq: Vec<P> = first.clone();
+                for p in first.iter() {
+                    let r = p.raw();
+                    let nk = norm(r);
+                    let other = if r == with_rep(nk, 1, uni.width) { with_rep(nk, 0, uni.width) } else { with_rep(nk, 1, uni.width) };
+                    let other = if P::KEEPS_HOST { other } else { nk };
+                    seq.push(mkp(other));
+                    model.insert(other, 0);
+                }
+                *self = seq.into_iter().collect();
+            }
             other => panic!("operation {other:?} is not part of the set alphabet"),
         }
         out
     }
-    fn enumerate_ops(uni: &Universe, model: &Model, alpha: Alphabet, two_reps: bool, retain_all: bool) -> Vec<Op> {
-        let all = ops::enumerate_ops(uni, model, alpha, two_reps, retain_all);
+    fn enumerate_ops(uni: &Universe, model: &Model, alpha: Alphabet, rep_mode: u8, retain_all: bool) -> Vec<Op> {
+        let all = ops::enumerate_ops(uni, model, alpha, rep_mode, retain_all);
         let mut v: Vec<Op> = all
             .into_iter()
             .filter(|o| match o.kind {
-                K::Insert | K::Remove | K::RemoveKeepTree | K::RemoveChildren | K::Clear | K::Retain | K::CloneSelf | K::Recollect | K::RecollectRev => true,
+                K::Insert | K::Remove | K::RemoveKeepTree | K::RemoveChildren | K::Clear | K::Retain | K::CloneSelf | K::Recollect | K::RecollectRev | K::FromIterDup => true,
                 K::ViewSet | K::ViewRemove => o.arg <= 1,
                 _ => false,
             })
